@@ -139,8 +139,8 @@ func (r *Router) ServeHTTP(res http.ResponseWriter, req *http.Request) {
 func (r *Router) HandleContext(c *Context) {
 	c.Reset()
 	r.handleHTTPRequest(c)
-	c = verifPoolPut(r, c)
-	r.ctxPool.Put(c)
+	// NOTICE: don't put the context to pool at here. It is owned by the caller:
+	// ServeHTTP() will release it, a second Put() makes the pool hold it twice.
 }
 
 // handle HTTP Request
